@@ -215,7 +215,7 @@ func ruleR3_5(r *Run) {
 			"the replay handles record type "+t+" but no live operation writes it any more (or the writer now uses another type): the state it rebuilt is lost after restart", w.fpos(replay))
 	}
 	// (a) every function that sets a mapping live also appends a replayed record on every success exit
-	isReplayedLog := func(in ssa.Instruction) bool {
+	isDirectLog := func(in ssa.Instruction) bool {
 		c, ok := in.(ssa.CallInstruction)
 		if !ok {
 			return false
@@ -231,6 +231,38 @@ func ruleR3_5(r *Run) {
 			}
 		}
 		return false
+	}
+	// a wrapper of the log writer: a labelmap function all of whose returns lie behind a direct log call
+	// (logMappedSet(d, v, mutID, label, set) { return labels.LogMapping(d, v, op) })
+	wrapper := map[*ssa.Function]bool{}
+	for _, g := range w.RepoFuncs {
+		if relPkg(pkgPathOf(g)) != "datatype/labelmap" || len(g.Blocks) == 0 || g == replay {
+			continue
+		}
+		has := false
+		for _, c := range calls(g) {
+			if isDirectLog(c) {
+				has = true
+			}
+		}
+		if !has {
+			continue
+		}
+		anyRet := func(x ssa.Instruction) bool { _, ok := x.(*ssa.Return); return ok }
+		if findPath(g, nil, isDirectLog, anyRet, nil) == nil {
+			wrapper[g] = true
+		}
+	}
+	isReplayedLog := func(in ssa.Instruction) bool {
+		if isDirectLog(in) {
+			return true
+		}
+		c, ok := in.(ssa.CallInstruction)
+		if !ok {
+			return false
+		}
+		callee := c.Common().StaticCallee()
+		return callee != nil && wrapper[callee]
 	}
 	n := 0
 	for _, f := range w.RepoFuncs {
